@@ -268,3 +268,9 @@ def run(ctx):
     rule_sole_writer(ctx)
     from rules import c16
     c16.rule_no_mut_view(ctx, rule="C09/append-only-image")
+
+
+def thorough(ctx):
+    # type-level remainder: external code cannot forge the bookkeeping these rules rely on (witnesses W1-W6)
+    from engine import witness
+    return witness.run(ctx, PROPERTY)
